@@ -28,7 +28,7 @@ BASE = {
         "open": 7, "add": 8, "close": 5, "drop": 2.5, "reconnect": 3, "ping": 0.7,
         "adv_small": 4, "adv_min": 2, "adv_sweep": 1.5, "adv_phase": 0.7, "adv_long": 0.4,
         "restart": 0.8, "kill": 0.3, "bad": 0.8, "stall": 0.2, "jump": 0.0, "dbfault": 0.0,
-        "persona": 1.5, "bulk": 0.0, "third": 0.5, "resend": 1.0, "split": 0.2, "idle_sub": 0.2, "late_claim": 0.1, "reuse": 0.15, "exhaust": 0.0, "dormant": 0.05,
+        "persona": 1.5, "bulk": 0.0, "third": 0.5, "resend": 1.0, "split": 0.2, "idle_sub": 0.2, "late_claim": 0.1, "reuse": 0.15, "exhaust": 0.0, "dormant": 0.05, "boundary": 0.05, "revenant": 0.05,
     },
 }
 
@@ -43,11 +43,12 @@ def profile(**over):
 
 PROFILES = {
     "default": profile(),
-    "C01": profile(unicode_p=0.3, literal_ids=2, share_ids_p=0.06,
+    "C01": profile(unicode_p=0.3, literal_ids=2, share_ids_p=0.06, jumps=[-30.0, -2.0, -0.5, 0.5, 30.0],
                    w={"add": 14, "open": 10, "drop": 4, "reconnect": 5, "adv_phase": 1.2, "adv_long": 0.8,
-                      "restart": 1.5, "kill": 0.6, "close": 6, "reuse": 1.5}),
+                      "restart": 1.5, "kill": 0.6, "close": 6, "reuse": 1.5, "jump": 0.4, "boundary": 1.0, "revenant": 0.5}),
     "C02": profile(nsides=(2, 3), autoping_p=0.4, names=2, literal_ids=1, napps=(1, 2), share_ids_p=0.06, unicode_p=0.25, big_p=0.02,
-                   w={"add": 14, "open": 10, "connect": 10, "adv_sweep": 3, "restart": 2.0, "kill": 0.6,
+                   jumps=[-30.0, -2.0, -0.5, 0.5, 30.0],
+                   w={"jump": 0.5, "add": 14, "open": 10, "connect": 10, "adv_sweep": 3, "restart": 2.0, "kill": 0.6,
                       "stall": 0.6, "reconnect": 5, "close": 3, "release": 2, "persona": 1, "split": 2.0, "late_claim": 0.7, "reuse": 1.0}),
     "C03": profile(names=3, w={"claim": 14, "allocate": 4, "release": 8, "restart": 1.5, "reconnect": 4, "late_claim": 2.0,
                                "resend": 3, "close": 5, "adv_long": 0.8, "add": 3}),
@@ -57,7 +58,7 @@ PROFILES = {
                       "adv_long": 0.5, "add": 2, "open": 2, "close": 3, "persona": 0.5}),
     "C05": profile(nsides=(3, 4), names=2, literal_ids=1, napps=(1, 2), jumps=[-3600.0, -30.0, -1.0, 1.0, 30.0],
                    usage_p=0.3,
-                   w={"third": 6, "jump": 0.5, "reuse": 1.5, "claim": 8, "open": 9, "close": 6, "release": 4, "reconnect": 5, "resend": 4,
+                   w={"third": 6, "jump": 0.5, "reuse": 1.5, "revenant": 1.5, "claim": 8, "open": 9, "close": 6, "release": 4, "reconnect": 5, "resend": 4,
                       "drop": 4, "restart": 1.0, "add": 6}),
     "C06": profile(napps=(2, 3), names=2, literal_ids=2, share_ids_p=0.12, numeric_app_p=0.15, case_app_p=0.2,
                    w={"restart": 1.5, "adv_sweep": 1.5, "adv_long": 1.2, "connect_unbound": 1.5, "split": 1.5,
@@ -79,7 +80,8 @@ PROFILES = {
                    w={"close": 9, "release": 7, "persona": 3, "adv_long": 1.2, "third": 1.5, "adv_sweep": 2,
                       "kill": 0.0}),
     "C16": profile(usage_p=1.0, blur=[1, 7, 60, 61, 100, 900, 3600, 86400], log_fd_p=0.2,
-                   w={"close": 8, "release": 7, "persona": 3, "adv_long": 1.5, "adv_sweep": 2, "adv_small": 6}),
+                   jumps=[-3600.0, -30.0, -2.0, 0.5, 30.0],
+                   w={"close": 8, "release": 7, "persona": 3, "adv_long": 1.5, "adv_sweep": 2, "adv_small": 6, "jump": 0.6}),
     "C17": profile(unicode_p=0.5, welcome_p=0.7, share_ids_p=0.05, big_p=0.01,
                    w={"bad": 14, "connect_unbound": 2, "ping": 2, "third": 2.5, "list": 5, "reuse": 1.5}),
     "C10": profile(steps=(6, 22), usage_p=0.6, nsides=(2, 3), names=3, autoping_p=0.1, hold_p=0.0,
@@ -588,6 +590,70 @@ class Gen(object):
         out += self.a_add(y) + self.a_add(x)
         return out
 
+    def a_boundary(self):
+        """the last activity of a mailbox falls exactly (or a hair before / after) one expiry
+        time before a sweep; everybody leaves; after that sweep the same id is used again"""
+        r = self.rng
+        app = r.choice(self.apps)
+        lits = [m for m in self.mboxes[app] if isinstance(m, str)]
+        mb = r.choice(lits) if lits and r.random() < 0.7 else None
+        s1, s2 = r.sample(self.sides, 2) if len(self.sides) >= 2 else (self.sides[0], self.sides[0])
+        a, out = self.a_connect(app=app, side=s1)
+        name = None
+        if mb is None:
+            name = self.name_for(a)
+            out += self.a_claim(a, name)
+            mb = {"ref": "claimed", "c": a.id}
+        out += self.a_open(a, mb)
+        out.append({"op": "advance", "to": "phase",
+                    "phase": round((PERIOD - (EXPIRY % PERIOD)) + r.choice([-0.001, 0.0, 0.0, 0.0, 0.001]), 4)})
+        out += self.a_add(a)
+        out += self.a_drop(a, "abrupt")
+        out.append({"op": "advance", "dt": round(EXPIRY + r.choice([0.5, 5.0, 100.0]), 3)})
+        b, o = self.a_connect(app=app, side=s2)
+        out += o
+        if name is not None and r.random() < 0.5:
+            out += self.a_claim(b, name)
+        out += self.a_open(b, mb)
+        out += self.a_add(b)
+        c, o = self.a_connect(app=app, side=s1)
+        out += o + self.a_open(c, mb)
+        return out
+
+    def a_revenant(self):
+        """two sides use a mailbox id and vanish; the sweep (or their closes) ends it; two other
+        sides use the same id; then the old sides come back"""
+        r = self.rng
+        if len(self.sides) < 3:
+            return self.a_reuse()
+        app = r.choice(self.apps)
+        lits = [m for m in self.mboxes[app] if isinstance(m, str)]
+        mb = r.choice(lits) if lits else "mbx-x"
+        sides = list(self.sides)
+        r.shuffle(sides)
+        old, new = sides[:2], (sides[2:4] if len(sides) >= 4 else [sides[2], sides[0]])
+        out, oc = [], []
+        for sd in old:
+            c, o = self.a_connect(app=app, side=sd)
+            out += o + self.a_open(c, mb)
+            if r.random() < 0.6:
+                out += self.a_add(c)
+            oc.append(c)
+        how = r.choice(["expire", "expire", "close"])
+        for c in oc:
+            if how == "close":
+                out += self.a_close(c)
+            out += self.a_drop(c, "abrupt")
+        if how == "expire":
+            out.append({"op": "advance", "dt": round(r.uniform(EXPIRY + PERIOD + 1, EXPIRY + 3 * PERIOD), 3)})
+        for sd in new:
+            c, o = self.a_connect(app=app, side=sd)
+            out += o + self.a_open(c, mb) + self.a_add(c)
+        for sd in old:
+            c, o = self.a_connect(app=app, side=sd)
+            out += o + self.a_open(c, mb)
+        return out
+
     def a_reuse(self):
         """a mailbox id lives twice: one side on two connections, the last close comes over one of
         them, the other lingers; then other sides use the same id again"""
@@ -745,6 +811,8 @@ class Gen(object):
             acts.append(("reuse", w.get("reuse", 0)))
             acts.append(("exhaust", w.get("exhaust", 0)))
             acts.append(("dormant", w.get("dormant", 0)))
+            acts.append(("boundary", w.get("boundary", 0)))
+            acts.append(("revenant", w.get("revenant", 0)))
             dead = [c for c in self.conns.values() if not c.alive and c.app is not None]
             if dead:
                 acts.append(("reconnect", w["reconnect"]))
@@ -788,6 +856,10 @@ class Gen(object):
             return self.a_exhaust()
         if a == "dormant":
             return self.a_dormant()
+        if a == "boundary":
+            return self.a_boundary()
+        if a == "revenant":
+            return self.a_revenant()
         if a in ("reconnect", "resend"):
             dead = [c for c in self.conns.values() if not c.alive and c.app is not None]
             return self.a_reconnect(r.choice(dead), resend=(a == "resend"))
